@@ -7,6 +7,7 @@ pub fn run(ctx: &Ctx) -> Option<Report> {
         "C01" => super::p01::run(ctx),
         "C02" => super::progprop::run(&super::p02::prop(), ctx),
         "C03" => super::p03::run(ctx),
+        "C04" => super::p04::run(ctx),
         "C05" => super::p05::run(ctx),
         "C06" => super::p06::run(ctx),
         "C07" => super::p07::run(ctx),
@@ -32,6 +33,7 @@ pub fn replay(ctx: &Ctx, case: &Value) -> Option<Report> {
         "C01" => super::p01::replay(ctx, case),
         "C02" => super::progprop::replay(&super::p02::prop(), ctx, case),
         "C03" => super::p03::replay(ctx, case),
+        "C04" => super::p04::replay(ctx, case),
         "C05" => super::p05::replay(ctx, case),
         "C06" => super::p06::replay(ctx, case),
         "C07" => super::p07::replay(ctx, case),
